@@ -370,7 +370,20 @@ func execC13(c *Ctx, s *stream, form int, sch *ReadSched, stopAt int, render boo
 			live = append(live, i)
 		}
 		if len(live) != n {
-			if !c.KnownHit("C13-empty-object-skipped", fmt.Sprintf("stream %q", clip(string(s.data), 80))) {
+			// Which reading do the invocations follow?  A tree that invokes the handler for the empty
+			// objects too is right (that is what the property says) and is judged against all
+			// documents; a tree that skips exactly them shows the known finding.
+			followsAll, sawEmpty := true, false
+			for j := 0; j < len(invs) && j < n; j++ {
+				if Canon(asIface(invs[j].m)) != Canon(s.model[j]) {
+					followsAll = false
+					break
+				}
+				if mm, ok := s.model[j].(mxj.Map); ok && len(mm) == 0 {
+					sawEmpty = true
+				}
+			}
+			if (followsAll && sawEmpty) || !c.KnownHit("C13-empty-object-skipped", fmt.Sprintf("stream %q", clip(string(s.data), 80))) {
 				live = live[:0]
 				for i := range s.docs {
 					live = append(live, i)
@@ -407,6 +420,14 @@ func execC13(c *Ctx, s *stream, form int, sch *ReadSched, stopAt int, render boo
 			}
 			if len(invs) < wantAll {
 				return &Violation{"C13.c5-fault-lost/" + tag, fmt.Sprintf("map handler invoked %d times although %d documents were completely delivered before the fault at %d", len(invs), wantAll, faultOff)}
+			}
+			// a read error that reached the handler loop must surface: through the error handler or
+			// the return value (whatever error value it is - also io.ErrUnexpectedEOF)
+			if r.ErrDelivered && !(stopAt > 0 && len(invs) >= stopAt) {
+				c.C["probe.c5_fault_surfaced_checked"]++
+				if len(herrs) == 0 && ret == nil {
+					return &Violation{"C13.c5-fault-swallowed/" + tag, fmt.Sprintf("the stream failed with %v at offset %d but the bulk handler neither called the error handler nor returned an error", sch.injected(), faultOff)}
+				}
 			}
 			return nil
 		}
